@@ -99,66 +99,157 @@ Lemma t_update_orig_skips :
 Proof. vm_compute. repeat split; congruence. Qed.
 
 (* ---------- the oracle holds on every trace of the model ---------- *)
+Lemma raised_app a b : raised (a ++ b) = raised a || raised b.
+Proof. unfold raised. apply existsb_app. Qed.
+Lemma raised_cons_read t es : raised (ERead t :: es) = raised es.
+Proof. reflexivity. Qed.
+Lemma reads_n_noraise n c : raised (fst (reads_n n c)) = false.
+Proof.
+  revert c; induction n as [|n IH]; intros c; simpl; [reflexivity|].
+  destruct (read c) as [v c1]. specialize (IH c1). destruct (reads_n n c1) as [es c2]. simpl in *. exact IH.
+Qed.
+Lemma run_cbs_noraise l c : raised (fst (run_cbs l c)) = false.
+Proof.
+  revert c; induction l as [|k r IH]; intros c; simpl; [reflexivity|].
+  pose proof (reads_n_noraise (cb_reads k) c) as H1. destruct (reads_n (cb_reads k) c) as [es1 c1]. specialize (IH c1).
+  destruct (run_cbs r c1) as [es2 c2]. simpl in *.
+  change (ECb (cb_id k) :: es1 ++ es2) with ([ECb (cb_id k)] ++ es1 ++ es2). rewrite !raised_app, H1, IH. reflexivity.
+Qed.
+
+(* a callback loop during which [bad] raises: complete (same as the plain loop) or cut short after a non-empty prefix *)
+Lemma until_spec bad : forall l c,
+  let '(es, c2, ok) := run_cbs_until bad l c in
+  if ok then seg_cbs es = map cb_id l /\ raised es = false
+  else exists k, (1 <= k)%nat /\ seg_cbs es = firstn k (map cb_id l) /\ length (seg_cbs es) = k /\ raised es = true.
+Proof.
+  induction l as [|x r IH]; intros c; simpl; [split; reflexivity|].
+  destruct (Nat.eqb (cb_id x) bad) eqn:E.
+  - exists 1%nat. simpl. repeat split; auto.
+  - pose proof (reads_n_cbs (cb_reads x) c) as H1. pose proof (reads_n_noraise (cb_reads x) c) as H2.
+    destruct (reads_n (cb_reads x) c) as [es1 c1]. specialize (IH c1).
+    destruct (run_cbs_until bad r c1) as [[es2 c2] ok]. simpl in H1, H2.
+    change (ECb (cb_id x) :: es1 ++ es2) with ([ECb (cb_id x)] ++ es1 ++ es2).
+    rewrite !seg_cbs_app, !raised_app, H1, H2. cbn [seg_cbs flat_map app raised existsb orb].
+    destruct ok.
+    + destruct IH as [A B]. rewrite A, B. split; reflexivity.
+    + destruct IH as (k & Hk & A & B & C). exists (S k). rewrite A, C. cbn [firstn length].
+      repeat split; auto; try lia. f_equal. rewrite <- B at 2. rewrite A. rewrite firstn_length.
+      rewrite A in B. rewrite firstn_length in B. lia.
+Qed.
+
+Lemma firstn_prefix {A} k (l : list A) : length (firstn k l) = k -> firstn (length (firstn k l)) l = firstn k l.
+Proof. intros H. now rewrite H. Qed.
+
 Definition t_inv (s : tsched) (st : ost) : Prop :=
   known st = true -> (lo st <= prev s <= hi st /\ reg st = map cb_id (cbs s)).
 
-Lemma t_run_ok strict I : forall ops s c st,
-  ivl s = I -> t_inv s st -> (known st = false \/ reg st = map cb_id (cbs s)) ->
-  t_segs_ok I st ops (t_run false strict s c ops) = true.
+(* one update (plain or with a raising callback) produces a segment the oracle accepts, and keeps the relation *)
+Lemma upd_seg_ok strict I o s c st s' es c' :
+  (o = OUpdate /\ t_update strict s c = (s', es, c')) \/ (exists bad, o = OUpdateRaise bad /\ t_update_raise strict bad s c = (s', es, c')) ->
+  ivl s = I -> known st = true -> is_nil (reg st) = false -> lo st <= prev s <= hi st -> reg st = map cb_id (cbs s) ->
+  exists st', t_seg_ok I st o es = (true, st') /\ known st' = true /\ lo st' <= prev s' <= hi st' /\
+              reg st' = map cb_id (cbs s') /\ ivl s' = I.
 Proof.
-  induction ops as [|o ops IH]; intros s c st HI Hinv Hreg; simpl; [reflexivity|].
-  destruct o as [|k|i]; simpl.
-  - (* update *)
-    destruct (known st) eqn:Hk; simpl.
-    2:{ unfold t_update. destruct (read c) as [t1 c1].
-        destruct (due strict t1 (prev s) (ivl s)).
-        - destruct (run_cbs (cbs s) c1) as [es1 c2]. destruct (read c2) as [t2 c3]. simpl.
-          apply IH; [assumption| intros Hk'; simpl in Hk'; congruence | left; assumption].
-        - simpl. apply IH; [assumption| intros Hk'; congruence | left; assumption]. }
-    destruct (Hinv Hk) as [Hb Hr].
-    destruct (is_nil (reg st)) eqn:Hn; simpl.
-    { unfold t_update. destruct (read c) as [t1 c1].
-      destruct (due strict t1 (prev s) (ivl s)).
-      - destruct (run_cbs (cbs s) c1) as [es1 c2]. destruct (read c2) as [t2 c3]. simpl.
-        apply IH; [assumption| intros Hk'; simpl in Hk'; congruence | left; reflexivity].
-      - simpl. apply IH; [assumption| intros Hk'; simpl in Hk'; congruence | left; reflexivity]. }
-    unfold t_update. destruct (read c) as [t1 c1] eqn:R1.
+  intros Hstep HI Hk Hn Hb Hr.
+  assert (Hne : is_nil (map cb_id (cbs s)) = false) by (rewrite <- Hr; exact Hn).
+  destruct Hstep as [(-> & Hs)|(bad & -> & Hs)].
+  - (* plain update *)
+    unfold t_update in Hs. destruct (read c) as [t1 c1] eqn:R1.
     destruct (due strict t1 (prev s) (ivl s)) eqn:D.
-    + pose proof (run_cbs_cbs (cbs s) c1) as Hc. destruct (run_cbs (cbs s) c1) as [es1 c2].
-      destruct (read c2) as [t2 c3] eqn:R2. simpl in Hc.
-      cbn [fst snd].
+    + pose proof (run_cbs_cbs (cbs s) c1) as Hc. pose proof (run_cbs_noraise (cbs s) c1) as Hnr.
+      destruct (run_cbs (cbs s) c1) as [es1 c2]. destruct (read c2) as [t2 c3] eqn:R2. simpl in Hc, Hnr.
+      inversion Hs; subst s' es c'. clear Hs.
+      unfold t_seg_ok. rewrite Hk, Hn. cbn [negb].
       change (ERead t1 :: es1 ++ [ERead t2]) with ([ERead t1] ++ es1 ++ [ERead t2]).
-      rewrite !seg_reads_app, !seg_cbs_app, Hc. cbn [seg_reads seg_cbs flat_map app].
-      rewrite app_nil_r.
-      assert (Hne : is_nil (map cb_id (cbs s)) = false) by (rewrite <- Hr; exact Hn).
-      rewrite Hne. cbn [negb]. rewrite Hr, nat_list_eqb_refl. cbn [andb].
+      rewrite !seg_reads_app, !seg_cbs_app, Hc. cbn [seg_reads seg_cbs flat_map app]. rewrite app_nil_r.
+      rewrite raised_cons_read, raised_app, Hnr. cbn [raised existsb orb].
+      rewrite Hne. cbn [negb andb]. rewrite Hr, nat_list_eqb_refl. cbn [andb].
       apply due_weak in D. rewrite HI in D.
       assert (E1 : (I <=? t1 - lo st) = true) by lia. rewrite E1. cbn [orb andb].
-      destruct (I <? t1 - hi st); cbn [andb];
-      (apply IH; [assumption | | right; reflexivity]);
-      intros _; cbn [lo hi reg prev cbs]; (split; [|reflexivity]);
-      (split; [apply zmin_l_le | apply zmax_l_ge]); apply in_or_app; right; left; reflexivity.
-    + cbn [fst snd seg_reads seg_cbs flat_map app is_nil negb andb].
-      assert (E : (I <? t1 - hi st) = false).
-      { unfold due in D. rewrite HI in D. destruct strict; lia. }
-      rewrite E. cbn [andb]. apply IH; [assumption|assumption|right; assumption].
-  - (* register *)
-    apply IH; [assumption| |].
-    + intros Hk. simpl in *. destruct (Hinv Hk) as [Hb Hr]. split; [assumption|].
-      rewrite map_app, Hr. reflexivity.
-    + destruct Hreg as [Hk|Hr]; [left; exact Hk| right; simpl; rewrite map_app, Hr; reflexivity].
-  - (* remove *)
-    apply IH; [assumption| |].
-    + intros Hk. simpl in *. destruct (Hinv Hk) as [Hb Hr]. split; [assumption|].
-      rewrite remove_first_ids, Hr. reflexivity.
-    + destruct Hreg as [Hk|Hr]; [left; exact Hk| right; simpl; rewrite remove_first_ids, Hr; reflexivity].
+      eexists. split; [destruct (I <? t1 - hi st); reflexivity|].
+      cbn [known lo hi reg prev cbs ivl]. repeat split; auto.
+      * apply zmin_l_le. apply in_or_app. right. left. reflexivity.
+      * apply zmax_l_ge. apply in_or_app. right. left. reflexivity.
+    + inversion Hs; subst s' es c'. clear Hs. unfold t_seg_ok. rewrite Hk, Hn.
+      cbn [negb seg_reads seg_cbs flat_map app is_nil andb existsb].
+      assert (E : (I <? t1 - hi st) = false). { unfold due in D. rewrite HI in D. destruct strict; lia. }
+      rewrite E. eexists. split; [reflexivity|]. repeat split; auto; lia.
+  - (* a callback raises *)
+    unfold t_update_raise in Hs. destruct (read c) as [t1 c1] eqn:R1.
+    destruct (due strict t1 (prev s) (ivl s)) eqn:D.
+    + pose proof (until_spec bad (cbs s) c1) as Hu. destruct (run_cbs_until bad (cbs s) c1) as [[es1 c2] ok].
+      destruct ok.
+      * destruct Hu as [Hc Hnr]. destruct (read c2) as [t2 c3] eqn:R2.
+        inversion Hs; subst s' es c'. clear Hs.
+        unfold t_seg_ok. rewrite Hk, Hn. cbn [negb].
+        change (ERead t1 :: es1 ++ [ERead t2]) with ([ERead t1] ++ es1 ++ [ERead t2]).
+        rewrite !seg_reads_app, !seg_cbs_app, Hc. cbn [seg_reads seg_cbs flat_map app]. rewrite app_nil_r.
+        rewrite raised_cons_read, raised_app, Hnr. cbn [raised existsb orb].
+        rewrite Hne. cbn [negb andb]. rewrite Hr, nat_list_eqb_refl. cbn [andb].
+        apply due_weak in D. rewrite HI in D.
+        assert (E1 : (I <=? t1 - lo st) = true) by lia. rewrite E1. cbn [orb andb].
+        eexists. split; [destruct (I <? t1 - hi st); reflexivity|].
+        cbn [known lo hi reg prev cbs ivl]. repeat split; auto.
+        -- apply zmin_l_le. apply in_or_app. right. left. reflexivity.
+        -- apply zmax_l_ge. apply in_or_app. right. left. reflexivity.
+      * destruct Hu as (k & Hk1 & Hc & Hlen & Hra).
+        inversion Hs; subst s' es c'. clear Hs.
+        unfold t_seg_ok. rewrite Hk, Hn. cbn [negb].
+        change (ERead t1 :: es1) with ([ERead t1] ++ es1).
+        rewrite !seg_reads_app, !seg_cbs_app. cbn [seg_reads seg_cbs flat_map app].
+        rewrite raised_cons_read, Hra.
+        assert (Hnn : is_nil (seg_cbs es1) = false) by (destruct (seg_cbs es1); [simpl in Hlen; lia|reflexivity]).
+        rewrite Hnn. cbn [negb andb].
+        assert (Hpre : nat_list_eqb (seg_cbs es1) (firstn (length (seg_cbs es1)) (reg st)) = true).
+        { rewrite Hlen, Hr, <- Hc. apply nat_list_eqb_refl. }
+        rewrite Hpre. cbn [andb].
+        apply due_weak in D. rewrite HI in D.
+        assert (E1 : (I <=? t1 - lo st) = true) by lia. cbn [existsb]. rewrite E1. cbn [orb andb].
+        eexists. split; [destruct (I <? t1 - hi st); reflexivity|]. repeat split; auto; lia.
+    + inversion Hs; subst s' es c'. clear Hs. unfold t_seg_ok. rewrite Hk, Hn.
+      cbn [negb seg_reads seg_cbs flat_map app is_nil andb existsb].
+      assert (E : (I <? t1 - hi st) = false). { unfold due in D. rewrite HI in D. destruct strict; lia. }
+      rewrite E. eexists. split; [reflexivity|]. repeat split; auto; lia.
+Qed.
+
+(* when the oracle has given up (no callback registered at some update) every segment passes *)
+Lemma t_run_unknown I strict : forall ops s c st, known st = false -> t_segs_ok I st ops (t_run false strict s c ops) = true.
+Proof.
+  induction ops as [|o ops IH]; intros s c st Hk; simpl; [reflexivity|].
+  destruct (t_step false strict s c o) as [[s' es] c'] eqn:E.
+  destruct o; cbn [t_seg_ok]; rewrite ?Hk; cbn [negb];
+    try (apply IH; assumption).
+  - unfold t_step in E. inversion E; subst. cbn [is_nil andb]. apply IH. reflexivity.
+  - unfold t_step in E. inversion E; subst. cbn [is_nil andb]. apply IH. reflexivity.
+Qed.
+
+Lemma t_run_ok strict I : forall ops s c st,
+  ivl s = I -> known st = true -> lo st <= prev s <= hi st -> reg st = map cb_id (cbs s) ->
+  t_segs_ok I st ops (t_run false strict s c ops) = true.
+Proof.
+  induction ops as [|o ops IH]; intros s c st HI Hk Hb Hr; simpl; [reflexivity|].
+  destruct (t_step false strict s c o) as [[s' es] c'] eqn:E.
+  destruct o as [|bad|k|i].
+  - destruct (is_nil (reg st)) eqn:Hn.
+    + cbn [t_seg_ok]. rewrite Hk, Hn. cbn [negb andb]. apply t_run_unknown. reflexivity.
+    + destruct (upd_seg_ok strict I OUpdate s c st s' es c') as (st' & Hs & A & B & C & D); auto.
+      rewrite Hs. cbn [andb]. apply IH; assumption.
+  - destruct (is_nil (reg st)) eqn:Hn.
+    + cbn [t_seg_ok]. rewrite Hk, Hn. cbn [negb andb]. apply t_run_unknown. reflexivity.
+    + destruct (upd_seg_ok strict I (OUpdateRaise bad) s c st s' es c') as (st' & Hs & A & B & C & D); auto.
+      { right. exists bad. split; [reflexivity|exact E]. }
+      rewrite Hs. cbn [andb]. apply IH; assumption.
+  - unfold t_step in E. inversion E; subst. cbn [t_seg_ok is_nil andb].
+    apply IH; cbn [ivl prev cbs known lo hi reg]; auto. rewrite map_app, Hr. reflexivity.
+  - unfold t_step in E. inversion E; subst. cbn [t_seg_ok is_nil andb].
+    apply IH; cbn [ivl prev cbs known lo hi reg]; auto. rewrite remove_first_ids, Hr. reflexivity.
 Qed.
 
 Theorem t_model_ok strict I l c ops :
   C15_time_ok I l ops (t_trace false strict I l c ops) = true.
 Proof.
   unfold t_trace, t_init, C15_time_ok. destruct (read c) as [v c1].
-  apply t_run_ok; [reflexivity| intros _; simpl; split; [lia|reflexivity] | right; reflexivity].
+  apply t_run_ok; simpl; try reflexivity. lia.
 Qed.
 
 (* the periodic save condition: the same oracle, through the latch *)
@@ -199,7 +290,25 @@ Lemma s_run_ok n : (1 <= n)%nat -> forall ops s c m reg0,
   s_segs_ok n m reg0 ops (s_run s c ops) = true.
 Proof.
   intros Hn. induction ops as [|o ops IH]; intros s c m reg0 Hs Hst Hr; simpl; [reflexivity|].
-  destruct o as [|k|i]; simpl.
+  destruct o as [|bad|k|i]; simpl.
+  - unfold s_update. rewrite Hs.
+    assert (Hlt : (Nat.modulo m n < n)%nat) by (apply Nat.mod_upper_bound; lia).
+    assert (Hm : Nat.modulo (S m) n = if Nat.leb n (S (Nat.modulo m n)) then 0%nat else S (Nat.modulo m n)).
+    { replace (S m) with (m + 1)%nat by lia.
+      rewrite Nat.add_mod by lia.
+      destruct (Nat.leb_spec n (S (Nat.modulo m n))) as [Hle|Hgt].
+      - assert (E : S (Nat.modulo m n) = n) by lia.
+        destruct (Nat.eq_dec n 1) as [->|Hn1].
+        + rewrite !Nat.mod_1_r. reflexivity.
+        + rewrite (Nat.mod_small 1 n) by lia. replace (Nat.modulo m n + 1)%nat with n by lia.
+          apply Nat.mod_same. lia.
+      - rewrite (Nat.mod_small 1 n) by lia. rewrite Nat.mod_small by lia. lia. }
+    rewrite Hst. destruct (Nat.leb n (S (Nat.modulo m n))) eqn:Hle.
+    + pose proof (run_cbs_cbs (scbs s) c) as Hc. destruct (run_cbs (scbs s) c) as [es c1].
+      simpl in Hc. cbn [fst snd]. rewrite Hm, Hc, <- Hr. cbn [Nat.eqb]. rewrite nat_list_eqb_refl. cbn [andb].
+      apply IH; cbn [sivl steps scbs]; try reflexivity; try assumption. rewrite Hm. reflexivity.
+    + cbn [fst snd seg_cbs flat_map]. rewrite Hm. cbn [Nat.eqb]. rewrite nat_list_eqb_refl. cbn [andb].
+      apply IH; cbn [sivl steps scbs]; try reflexivity; try assumption. rewrite Hm. reflexivity.
   - unfold s_update. rewrite Hs.
     assert (Hlt : (Nat.modulo m n < n)%nat) by (apply Nat.mod_upper_bound; lia).
     assert (Hm : Nat.modulo (S m) n = if Nat.leb n (S (Nat.modulo m n)) then 0%nat else S (Nat.modulo m n)).
